@@ -75,8 +75,8 @@ class Sched:
 
     def _wait_turn(self, me):
         while self.turn != me:
-            if not self.cv.wait(5.0):
-                raise SchedStuck("thread %s waited 5 s for its turn (turn=%r seg=%d done=%r blocked=%r trace=%r)"
+            if not self.cv.wait(30.0):
+                raise SchedStuck("thread %s waited 30 s for its turn (turn=%r seg=%d done=%r blocked=%r trace=%r)"
                                  % (me, self.turn, self.seg, self.done, self.blocked, self.trace[-6:]))
 
     def start_thread(self, me):
@@ -269,6 +269,8 @@ def _request(pool, script, name, out):
         out[name] = ("err", e)
     except Hang:
         out[name] = ("hang", None)
+    except SchedStuck as e:
+        out[name] = ("stuck", e)
     except BaseException as e:      # AttributeError, TypeError, ...: internal errors are what the property forbids
         out[name] = ("internal", e)
 
@@ -301,6 +303,14 @@ def _schedule(maxsize, block, script, other, w1, x1, w2):
                         out["X"] = ("hang", None)
                     except BaseException as e:
                         out["X"] = ("internal", e)
+                elif other == "request+close":
+                    # a third actor folded into X: a second request, then close() — reaches the non-blocking pool's
+                    # "queue full" branch of the worker with a close() racing it
+                    _request(pool, 0, "X", out)
+                    try:
+                        pool.close()
+                    except BaseException as e:
+                        out["X"] = ("internal", e)
                 else:
                     _request(pool, 0 if other == "request" else 2, "X", out)
             finally:
@@ -318,8 +328,11 @@ def _schedule(maxsize, block, script, other, w1, x1, w2):
         finally:
             sched.active = False
             main.name = old_name
+        from kit.h import Skip
         if tx.is_alive():
-            raise SchedStuck("the other thread never finished: %r" % (sched.trace[-8:],))
+            raise Skip("scheduler: the other thread never finished: %r" % (sched.trace[-8:],))
+        if any(o[0] == "stuck" for o in out.values()):
+            raise Skip("scheduler lost track: %r" % ([o[1] for o in out.values() if o[0] == "stuck"][:1],))
         # ---- outcomes ----
         for name in ("W", "X"):
             o = out.get(name)
@@ -333,8 +346,11 @@ def _schedule(maxsize, block, script, other, w1, x1, w2):
                 tr = sched.trace
                 wr = [i for i, t in enumerate(tr) if t == ("X", "write self.pool")]
                 xg = [i for i, t in enumerate(tr) if t == ("X", "q.get")]
-                swapped_first = bool(wr) and all(i > wr[0] for i in xg)
-                if other == "close" and block and name == "W" and swapped_first and known("F24"):
+                puts = [i for i, t in enumerate(tr) if t == ("X", "q.put") and wr and i < wr[0]]
+                last_put = max(puts) if puts else -1
+                drained_early = bool(wr) and any(last_put < i < wr[0] for i in xg)     # close() emptied the queue before the swap
+                swapped_first = bool(wr) and not drained_early
+                if other in ("close", "request+close") and block and name == "W" and swapped_first and known("F24"):
                     continue
                 return _fail("schedule (%d,%d,%d): thread %s hangs: %s | trace %r" % (w1, x1, w2, name, sched.hang, sched.trace[-8:]))
             if o[0] == "internal":
@@ -348,16 +364,16 @@ def _schedule(maxsize, block, script, other, w1, x1, w2):
                     return _fail("thread %s received %r, its own response is %r" % (name, data, want))
             if o[0] == "err":
                 e = o[1]
-                if other != "close" and isinstance(e, ClosedPoolError):
+                if other not in ("close", "request+close") and isinstance(e, ClosedPoolError):
                     return _fail("ClosedPoolError without a close()")
-                if other != "close" and not (script in (1, 3) or isinstance(e, EmptyPoolError)):
+                if other not in ("close", "request+close") and not (script in (1, 3) or isinstance(e, EmptyPoolError)):
                     return _fail("thread %s failed with %r although nothing went wrong" % (name, e))
         if peer.users:
             return _fail("one connection carried two threads' requests at the same time: %r" % (peer.users,))
         if block and netw.max_open > maxsize:
             return _fail("block=True pool had %d sockets open at once (maxsize %d)" % (netw.max_open, maxsize))
         # ---- slots / sockets ----
-        if other != "close":
+        if other not in ("close", "request+close"):
             q = pool.__dict__.get("_p")
             n = queue.LifoQueue.qsize(q)
             if block and n != maxsize:
@@ -405,11 +421,13 @@ def JOBS(tier):
     for maxsize in (1, 2):
         for block in (True, False):
             for script in (0, 1, 2, 3):
-                for other in ("close", "request", "stream"):
+                for other in ("close", "request", "stream", "request+close"):
                     if quick and other == "stream" and script not in (0, 2):
                         continue
+                    if other == "request+close" and (script not in (0, 2) or (quick and maxsize == 2)):
+                        continue
                     part = {"maxsize": maxsize, "block": block, "script": script, "other": other,
-                            "wmax": 11 if quick else 30, "xmax": 7 if quick else 14}
+                            "wmax": 11 if quick else 30, "xmax": (7 if quick else 14) + (12 if other == "request+close" else 0)}
                     part["n"] = space_size(dims_of(part))
                     jobs.append({"func": "c02_sched", "timeout": t, "path_timeout": 60, "samples": 1, "part": part})
     return jobs
